@@ -57,20 +57,20 @@ Theorem keep_rel_clamp s thr minb maxb :
   keep_rel N s thr minb maxb = Nat.min (Nat.max (Nat.min (count_rel N s thr) maxb) minb) (length s).
 Proof. reflexivity. Qed.
 
-Lemma tss_loop_le r : forall idx len d thr, 2 <= len -> tss_loop N r idx len d thr <= len.
-Proof. induction r as [|s r IH]; intros idx len d thr H; simpl; [lia|]. destruct (leb N thr _); [lia|apply IH; exact H]. Qed.
+Lemma tss_loop_le r : forall idx len d thr mk, mk <= len -> tss_loop N r idx len d thr mk <= len.
+Proof. induction r as [|s r IH]; intros idx len d thr mk H; simpl; [lia|]. destruct (leb N thr _); [lia|apply IH; exact H]. Qed.
 
-Lemma tss_loop_ge2 r : forall idx len d thr, 2 <= len -> 2 <= tss_loop N r idx len d thr.
-Proof. induction r as [|s r IH]; intros idx len d thr H; simpl; [lia|]. destruct (leb N thr _); [lia|apply IH; exact H]. Qed.
+Lemma tss_loop_ge r : forall idx len d thr mk, mk <= len -> mk <= tss_loop N r idx len d thr mk.
+Proof. induction r as [|s r IH]; intros idx len d thr mk H; simpl; [lia|]. destruct (leb N thr _); [lia|apply IH; exact H]. Qed.
 
-Theorem keep_tss_cap s thr m : keep_tss N s thr (Some m) <= m.
+Theorem keep_tss_cap s thr minb m : keep_tss N s thr minb (Some m) <= m.
 Proof. unfold keep_tss. lia. Qed.
 
-Theorem keep_tss_le_len s thr mb : 2 <= length s -> keep_tss N s thr mb <= length s.
-Proof. intro H. unfold keep_tss. pose proof (tss_loop_le (rev s) 0 (length s) (zero N) thr H). destruct mb; lia. Qed.
+Theorem keep_tss_le_len s thr minb mb : keep_tss N s thr minb mb <= length s.
+Proof. unfold keep_tss. pose proof (tss_loop_le (rev s) 0 (length s) (zero N) thr (Nat.min (length s) minb) ltac:(lia)). destruct mb; lia. Qed.
 
-Theorem keep_tss_min_two s thr : 2 <= length s -> 2 <= keep_tss N s thr None.
-Proof. intro H. unfold keep_tss. apply tss_loop_ge2; exact H. Qed.
+Theorem keep_tss_min s thr minb : Nat.min (length s) minb <= keep_tss N s thr minb None.
+Proof. unfold keep_tss. apply tss_loop_ge. lia. Qed.
 
 Lemma trs_loop_le r : forall idx len a thr, 1 <= len -> trs_loop N r idx len a thr <= len.
 Proof. induction r as [|s r IH]; intros idx len a thr H; simpl; [lia|]. destruct (leb N thr _); [lia|apply IH; exact H]. Qed.
@@ -200,10 +200,10 @@ Proof. intro Hp. unfold count_rel. simpl eqb. simpl zero.
 (* two_site_svd over Q: strictly less than the threshold is discarded *)
 Fixpoint consumed_ge (r : list Q) (d thr : Q) : nat :=
   match r with [] => 0%nat | s :: r' => if Qle_bool thr (d + s * s) then 0%nat else S (consumed_ge r' (d + s * s) thr) end.
-Lemma tss_loop_consumed r : forall idx len d thr,
-  tss_loop QN r idx len d thr =
-  if (consumed_ge r d thr <? length r)%nat then Nat.max (len - (idx + consumed_ge r d thr)) 2 else len.
-Proof. induction r as [|s r IH]; intros idx len d thr; simpl; [reflexivity|].
+Lemma tss_loop_consumed r : forall idx len d thr mk,
+  tss_loop QN r idx len d thr mk =
+  if (consumed_ge r d thr <? length r)%nat then Nat.max (len - (idx + consumed_ge r d thr)) mk else len.
+Proof. induction r as [|s r IH]; intros idx len d thr mk; simpl; [reflexivity|].
   destruct (Qle_bool thr (d + s * s)) eqn:E.
   - simpl. rewrite Nat.add_0_r. reflexivity.
   - rewrite IH. change (S (consumed_ge r (d + s * s) thr) <? S (length r))%nat with (consumed_ge r (d + s * s) thr <? length r)%nat.
@@ -215,11 +215,39 @@ Proof. induction r as [|s r IH]; intros d thr m Hd Hm; simpl in *.
     + assert (m = 0)%nat by lia. subst m. simpl. exact Hd.
     + destruct m as [|m]; simpl; [exact Hd|]. change (fq d s) with (d + s * s). apply IH; [|lia].
       apply Qnot_le_lt. intro C. apply Qle_bool_iff in C. congruence. Qed.
-Theorem tss_weight s thr : 0 < thr -> tail_weight QN s (keep_tss QN s thr None) < thr.
+Theorem tss_weight s thr minb : 0 < thr -> tail_weight QN s (keep_tss QN s thr minb None) < thr.
 Proof. intro Ht. rewrite tail_weight_Q. unfold keep_tss. rewrite tss_loop_consumed, rev_length. simpl zero.
   set (c := consumed_ge (rev s) 0 thr). destruct (Nat.ltb_spec c (length s)) as [L|L].
   - rewrite rev_skipn. apply consumed_ge_prefix; [exact Ht|]. fold c. lia.
   - rewrite skipn_all. simpl. exact Ht. Qed.
+
+(* the SVD-based centre shift (two_site_svd without a cap) cannot enlarge a bond beyond max(chi, min_bond_dim): the merged
+   matrix has rank <= chi, so the singular values after the first chi vanish; as soon as the state carries at least the
+   threshold weight they are discarded *)
+Lemma consumed_ge_le r : forall d thr, (consumed_ge r d thr <= length r)%nat.
+Proof. induction r as [|s r IH]; intros d thr; simpl; [lia|]. destruct (Qle_bool thr (d + s * s)); [lia|]. specialize (IH (d + s * s) thr). lia. Qed.
+Lemma consumed_ge_zeros z : forall r d thr, d < thr -> Forall (fun x => x == 0) z -> (length z <= consumed_ge (z ++ r) d thr)%nat \/ False.
+Proof. induction z as [|x z IH]; intros r d thr Hd Hz; left; simpl; [lia|].
+  inversion Hz as [|? ? Hx Hz']; subst.
+  assert (E : d + x * x < thr) by (rewrite Hx; ring_simplify; exact Hd).
+  destruct (Qle_bool thr (d + x * x)) eqn:F; [apply Qle_bool_iff in F; exfalso; apply (Qlt_not_le _ _ E F)|].
+  destruct (IH r (d + x * x) thr E Hz') as [G|[]]. lia. Qed.
+Theorem tss_rank_bound s thr minb chi : 0 < thr -> Forall (fun x => x == 0) (skipn chi s) -> thr <= tail_weight QN s 0 ->
+  (keep_tss QN s thr minb None <= Nat.max chi (Nat.min (length s) minb))%nat.
+Proof. intros Ht Hz Hw. unfold keep_tss. rewrite tss_loop_consumed, rev_length. simpl zero.
+  change (T QN) with Q in *. set (c := consumed_ge (rev s) 0 thr).
+  assert (Hc : (c < length s)%nat).
+  { destruct (Nat.ltb_spec c (length s)) as [L|L]; [exact L|]. exfalso.
+    rewrite tail_weight_Q in Hw. simpl skipn in Hw.
+    pose proof (consumed_ge_prefix (rev s) 0 thr (length (rev s)) Ht) as P. rewrite firstn_all in P. rewrite rev_length in P.
+    apply (Qlt_not_le _ _ (P L) Hw). }
+  apply Nat.ltb_lt in Hc. rewrite Hc. simpl Nat.add.
+  assert (Hge : (length s - chi <= c)%nat).
+  { unfold c. rewrite <- (firstn_skipn chi s) at 2. rewrite rev_app_distr.
+    destruct (consumed_ge_zeros (rev (skipn chi s)) (rev (firstn chi s)) 0 thr Ht) as [G|[]].
+    - apply Forall_rev. exact Hz.
+    - rewrite rev_length, skipn_length in G. exact G. }
+  lia. Qed.
 
 (* ---------- MPS.truncate visits every bond exactly once ---------- *)
 Local Open Scope nat_scope.
